@@ -6,5 +6,8 @@ set -u
 seed=$1; prop=$2
 cd /verif
 git -C /repo apply $seed/patch.diff || { echo "patch does not apply"; exit 2; }
+cp evidence/$prop.json /tmp/evidence.$prop.keep 2>/dev/null
 ./check.sh $prop quick 2>&1 | cut -c1-300 | grep -v "^KNOWN" | tail -6
 git -C /repo apply -R $seed/patch.diff
+# the evidence of the run on the changed tree is not the record of the check
+cp /tmp/evidence.$prop.keep evidence/$prop.json 2>/dev/null; rm -f /tmp/evidence.$prop.keep
